@@ -571,6 +571,9 @@ def mutate_items(rng, items, kind):
         k = rng.randrange(len(spans) + 1)
         pos = spans[k][0] if k < len(spans) else len(items[i])
         frag = rng.choice(ILLEGAL_FRAGMENTS)
+        if rng.random() < 0.3:
+            # directive-like fragments reach lexer state (line, file, pending token): prefer them
+            frag = rng.choice([f for f in ILLEGAL_FRAGMENTS if f.startswith("#") or f.startswith("_Pragma")])
         if frag.startswith("#"):
             frag = "\n" + frag + "\n"
         else:
